@@ -233,7 +233,7 @@ def _oracle(ctx, camp, n, shards):
     return fails, crashed
 
 
-def _report_oracle(ctx, fails, crashed):
+def _report_oracle(ctx, camp, fails, crashed):
     seen = set()
     for f in fails:
         head, _, ops = f.partition(" :: ")
@@ -241,8 +241,13 @@ def _report_oracle(ctx, fails, crashed):
         if clause in seen:
             continue
         seen.add(clause)
+        prog = [o for o in ops.split(";") if o]
+        ann = ["oracle: " + head]
+        if prog and prog[0] == "new" and camp.judge(prog):
+            prog = ctx.ddmin(prog, lambda l: bool(camp.judge(l)), keep_prefix=1)
+            ann += ["spec: " + x.split(" :: ")[0] for x in camp.judge(prog)[:3]]
         ctx.violation("impl-vs-spec", "clause '%s' of the property fails on the implementation: %s" % (clause, head[5:]),
-                      lines=[o for o in ops.split(";") if o], annotations=["oracle: " + head], concrete=True)
+                      lines=prog, annotations=ann, concrete=True)
     for c in crashed[:1]:
         ctx.violation("impl-vs-spec", "clause 'cycle_is_error': the implementation crashed (unbounded recursion) in oracle " + c,
                       concrete=True)
@@ -306,7 +311,7 @@ def run(ctx):
     # --- Spec vs implementation
     ofails, ocrash = _oracle(ctx, camp, ctx.pick(6000, 320000), shards)
     concrete = bool(ofails or ocrash)
-    _report_oracle(ctx, ofails, ocrash)
+    _report_oracle(ctx, camp, ofails, ocrash)
     # --- verdicts on differences
     for ops, a, err in camp.crashes[:2]:
         done = ctx.count_lines(a)
@@ -326,7 +331,7 @@ def run(ctx):
             if concrete:
                 return True
             f2, c2 = _oracle(ctx, camp, 320000, SHARDS)
-            _report_oracle(ctx, f2, c2)
+            _report_oracle(ctx, camp, f2, c2)
             return bool(f2 or c2)
         ctx.obligation_violations(failed, searcher=searcher)
     if not ctx.quick():
